@@ -72,6 +72,10 @@ type Stream struct {
 	// Contains frames waiting to be sent to the peer. Is emptied by AsyncFlush or Flush.
 	pendingFrames []*Frame
 
+	// Set while an AsyncFlush is writing pendingFrames; callbacks of the AsyncFlush calls made meanwhile wait here.
+	flushing     bool
+	flushWaiters []func(err error)
+
 	// Optional callback invoked when a control frame is received.
 	controlCallback ControlCallback
 
@@ -164,6 +168,8 @@ func (s *Stream) reset() {
 	s.conn = nil
 	s.src.Reset()
 	s.dst.Reset()
+	s.flushing = false
+	s.flushWaiters = nil
 }
 
 // Returns the stream through which IO is done.
@@ -730,6 +736,33 @@ func (s *Stream) Flush() (err error) {
 func (s *Stream) AsyncFlush(callback func(err error)) {
 	if len(s.pendingFrames) == 0 {
 		callback(nil)
+		return
+	}
+
+	if s.flushing {
+		// Another flush is already writing the pending frames, in order, through the single write path of the
+		// underlying stream; it also writes the frames queued since it started. Starting a second, overlapping write
+		// would replace the first one's completion handler. Wait for the running flush instead.
+		s.flushWaiters = append(s.flushWaiters, callback)
+		return
+	}
+
+	s.flushing = true
+	s.asyncFlush(func(err error) {
+		s.flushing = false
+		waiters := s.flushWaiters
+		s.flushWaiters = nil
+
+		callback(err)
+		for _, waiter := range waiters {
+			waiter(err)
+		}
+	})
+}
+
+func (s *Stream) asyncFlush(callback func(err error)) {
+	if len(s.pendingFrames) == 0 {
+		callback(nil)
 	} else {
 		sent := s.pendingFrames[0]
 		s.pendingFrames = s.pendingFrames[1:]
@@ -740,7 +773,7 @@ func (s *Stream) AsyncFlush(callback func(err error)) {
 			if err != nil {
 				callback(err)
 			} else {
-				s.AsyncFlush(callback)
+				s.asyncFlush(callback)
 			}
 		})
 	}
